@@ -372,6 +372,47 @@ def acc_C02(w):
 
 
 # =================================================================================================
+# C04 (whole runs: accepted volume = fills + volume reported at the first terminal event (or still resting))
+
+
+def acc_C04(w):
+    sim = w.runner.simulator
+    acc = {}     # (market, order id) -> volume at acceptance
+    lost = PyCounter()
+    term = {}    # (market, order id) -> volume reported at the first terminal event
+    for e in w.ev:
+        if e[0] == "acc":
+            post = e[6]
+            acc[(post[1], post[0])] = post[6]
+        elif e[0] == "round":
+            for (is_buy, oid), v in e[4]["delta"].items():
+                key = (e[1], oid)
+                V(key in acc and key not in term, "C04.fill_after_terminal", "an order lost volume in a matching round after its terminal event (or without ever being accepted)",
+                  "market %s order %s" % key)
+                lost[key] += v
+        elif e[0] == "can":
+            key = (e[1], e[4][0])
+            if key not in term:
+                term[key] = e[2].volume
+        elif e[0] == "clock":
+            for o in e[3]:
+                key = (e[1], o.order_id)
+                if key not in term:
+                    term[key] = o.volume
+    resting = {}
+    for m in sim.markets:
+        for o in list(m.buy_order_book.priority_queue) + list(m.sell_order_book.priority_queue):
+            resting[(m.market_id, o.order_id)] = o.volume
+    for key, a in acc.items():
+        rest = term[key] if key in term else resting.get(key, 0)
+        V(a == lost[key] + rest, "C04.identity", "accepted volume != fills + volume reported at the first terminal event (or still resting at the end)",
+          "market %s order %s: accepted %s, lost in rounds %s, %s %s" % (key[0], key[1], a, lost[key], "terminal" if key in term else "resting", rest))
+        if key in term:
+            V(key not in resting, "C04.rests_after_terminal", "an order is still in the book after its terminal event", "market %s order %s" % key)
+    w.wit.inc("whole_run_rounds_with_fills", sum(1 for e in w.ev if e[0] == "round" and e[2]))
+
+
+# =================================================================================================
 # C10
 
 _REC_TYPES = (OrderLog, CancelLog, ExecutionLog, ExpirationLog)
@@ -568,6 +609,9 @@ def acc_C11(w):
                 w.wit.inc("cancel_of_dead_order")
         elif k == "round":
             for l in e[2]:
+                # "that fill's record": it names the market and the time of the round that produced the fill
+                V(l.market_id == e[1] and l.time == e[4]["t"], "C11.record", "the record an agent is handed for a fill does not carry the market and time of that fill",
+                  "record market %r time %r, round on market %r at time %r" % (l.market_id, l.time, e[1], e[4]["t"]))
                 exp[l.buy_agent_id][("exe", _fields(l))] += 1
                 exp[l.sell_agent_id][("exe", _fields(l))] += 1
                 happened.add(("exe", _fields(l)))
